@@ -19,3 +19,5 @@ def check(ctx: Ctx) -> None:
     # "a command that waits is answered when the wait is over" - and the other sessions meanwhile: no lock shared between sessions is held across an await
     from .c19 import r_no_shared_lock
     r_no_shared_lock(ctx, "R18.9")
+    # "every line is answered": forwarding the parsed arguments as **kwargs cannot clash with a parameter of the receiving function
+    CT.r_dispatch_names(ctx, "R18.10")
